@@ -1,6 +1,7 @@
 package checks
 
 import (
+	"regexp"
 	"crypto/x509"
 	"fmt"
 	"strings"
@@ -46,6 +47,9 @@ type c06shape struct {
 	both     bool
 	focused  bool
 }
+
+// c06IssueDate, when set, replaces the issue date of both JSON documents in the next c06Build ("absent" removes the member).
+var c06IssueDate string
 
 func mo(k int) time.Time { return world.T0.AddDate(0, k, 0) }
 
@@ -161,6 +165,19 @@ func c06Build(shape int, focus string) *c06shape {
 	tcbNU, qeNU, pckCrlNU, rootCrlNU := nu("tcbNext", 5), nu("qeNext", 6), nu("pckCrlNext", 7), nu("rootCrlNext", 8)
 	ti.NextUpdate, qi.NextUpdate = world.TimeStr(tcbNU), world.TimeStr(qeNU)
 	ti.IssueDate, qi.IssueDate = world.TimeStr(mo(-300)), world.TimeStr(mo(-300)) // issued long ago: a stricter "not yet issued" check must not interfere
+	if c06IssueDate != "" && c06IssueDate != "absent" {
+		ti.IssueDate, qi.IssueDate = c06IssueDate, c06IssueDate
+	}
+	docJSON := func(v any) []byte {
+		b := world.MustJSON(v)
+		if c06IssueDate == "absent" {
+			b = regexp.MustCompile(`"issueDate":"[^"]*",`).ReplaceAll(b, nil)
+		}
+		return b
+	}
+	if c06IssueDate != "" {
+		s.name += "+issueDate=" + c06IssueDate
+	}
 	g := world.NewGetter()
 	crlHdr := world.IssuerChainHeader(crlInter, crlRoot)
 	if reversedCrlHdr {
@@ -168,9 +185,9 @@ func c06Build(shape int, focus string) *c06shape {
 		s.name = strings.Replace(s.name, "own-copies", "own-copies+pckcrl-header-root-first", 1)
 	}
 	g.Responses[world.URLTcbInfo(hexs(plat.FMSPC))] = world.Response{Header: map[string][]string{world.HdrTcbInfo: {world.IssuerChainHeader(tcbSigner, tcbRoot)}},
-		Body: world.SignedBody("tcbInfo", world.MustJSON(ti), pki.TcbKey)}
+		Body: world.SignedBody("tcbInfo", docJSON(ti), pki.TcbKey)}
 	g.Responses[world.URLQeIdentity] = world.Response{Header: map[string][]string{world.HdrQeIdentity: {world.IssuerChainHeader(qeSigner, qeRoot)}},
-		Body: world.SignedBody("enclaveIdentity", world.MustJSON(qi), qeKey)}
+		Body: world.SignedBody("enclaveIdentity", docJSON(qi), qeKey)}
 	g.Responses[world.URLPckCrl("platform")] = world.Response{Header: map[string][]string{world.HdrPckCrl: {crlHdr}},
 		Body: world.MakeCRL(world.CRLSpec{Issuer: inter, Signer: pki.InterKey, ThisUpdate: mo(-300), NextUpdate: pckCrlNU})}
 	g.Responses[world.RootCRLURL] = world.Response{Body: world.MakeCRL(world.CRLSpec{Issuer: chainRoot, Signer: pki.RootKey, ThisUpdate: mo(-300), NextUpdate: rootCrlNU})}
@@ -258,6 +275,14 @@ func runC06(r *mc.Run) {
 	}
 	for _, f := range []string{"", "inter", "leaf", "chainRoot"} {
 		shapes = append(shapes, c06Build(5, f))
+	}
+	// documents whose issue date is absent or centuries away (a duration computed from it saturates)
+	for _, d := range []string{"absent", "1700-01-01T00:00:00Z", "2400-01-01T00:00:00Z", "0001-01-01T00:00:00Z"} {
+		c06IssueDate = d
+		for _, f := range []string{"tcbNext", "qeNext"} {
+			shapes = append(shapes, c06Build(2, f))
+		}
+		c06IssueDate = ""
 	}
 	// Intel-like in one more respect: one TCB-signing certificate serves both JSON documents
 	shapes = append(shapes, c06Build(3, ""))
